@@ -47,6 +47,13 @@ func (c Cfg) parseKey(raw []byte) (uint64, error) {
 			err = errors.New("null key")
 		}
 		return uint64(v + i64bias), err
+	case "i64w":
+		var v int64
+		err := json.Unmarshal(raw, &v)
+		if err == nil && strings.TrimSpace(string(raw)) == "null" {
+			err = errors.New("null key")
+		}
+		return uint64(v) ^ (1 << 63), err
 	case "str", "strx":
 		var s string
 		if err := json.Unmarshal(raw, &s); err != nil {
